@@ -382,6 +382,7 @@ func c11Describe(u *c11Universe, h []c11Op, operands []ref.Value) string {
 func c11CheckHist(c *core.Ctx, u *c11Universe, operands []ref.Value, hist []c11Op, doOracle bool) (*core.Viol, string, *c11State) {
 	var key string
 	var st *c11State
+	c.Current(core.Case{Kind: "api", Cfg: u.name, Data: c11HistStr(hist)})
 	v := c.Run(func() *core.Viol {
 		s, cl, det := c11Replay(u, hist, operands)
 		st = s
@@ -837,6 +838,7 @@ func c11Merge(c *core.Ctx) int {
 				}
 				want := ref.Dump(ref.MapAppend(lm, rm))
 				cs := core.Case{Kind: "merge", Data: key}
+				c.Current(cs)
 				v := c.Run(func() *core.Viol {
 					lo, ro := obs.ToObject(lm).(object.Map), obs.ToObject(rm).(object.Map)
 					lb, rb := obs.DumpValue(lo), obs.DumpValue(ro)
